@@ -16,7 +16,7 @@ PROPERTY = "C13"
 LEVEL = "exploration"
 NEED_EXT = True
 REQUIRED = ["fct.roundtrip", "perm.roundtrip.labels", "perm.roundtrip.proba", "regressor.trained_on_g",
-            "regressor.predict_inverse", "classifier.labels", "classifier.proba", "classifier.classes_columns"]
+            "regressor.predict_inverse", "regressor.history", "classifier.labels", "classifier.proba", "classifier.classes_columns"]
 RULE = ("all predefined names x generated targets in their domain (NaN, 1-D/column) ; label sets (ints, negative "
         "ints, '<U' strings, object strings, 2-6 classes) x every random_state 0-23 (thorough 0-79) x three "
         "learners; non-trivial = non-identity permutation of >= 3 classes, or a function round trip with NaN; "
@@ -134,13 +134,16 @@ def run_perm(case, ctx):
     from mlinsights.mlmodel.sklearn_transform_inv_fct import PermutationReciprocalTransformer
     rs = case["rs"]
     rng = numpy.random.RandomState(case["sub"] % (2 ** 31))
-    for lname, mk in LABELSETS + [("float-nan", lambda k: numpy.array([0.5, 1.5, 2.5, 3.5, 4.5, 5.5][:k]))]:
+    fl = [0.5, 1.5, 2.5, 3.5, 4.5, 5.5]
+    for lname, mk in LABELSETS + [("float-nan", lambda k: numpy.array(fl[:k])),
+                                  ("float32-nan", lambda k: numpy.array(fl[:k], dtype=numpy.float32)),
+                                  ("float16-nan", lambda k: numpy.array(fl[:k], dtype=numpy.float16))]:
         for k in (2, 3, 4, 6):
             labels = mk(k)
             n = int(rng.randint(k, 30))
             y = labels[numpy.concatenate([numpy.arange(k), rng.randint(0, k, n - k)])]
             rng.shuffle(y)
-            if lname == "float-nan":
+            if lname.endswith("-nan"):
                 y = y.copy()
                 y[rng.randint(n)] = numpy.nan
             cfg = {"labels": lname, "k": k, "random_state": rs, "n": n}
@@ -158,8 +161,8 @@ def run_perm(case, ctx):
                 continue
             ctx.hit("perm.roundtrip.labels")
             ctx.check(r is t, "C13/perm/fit-returns-not-self", "fit did not return the transformer", cfg=cfg)
-            if lname == "float-nan":
-                same = numpy.array_equal(numpy.asarray(y2, dtype=float), y, equal_nan=True)
+            if lname.endswith("-nan"):
+                same = numpy.array_equal(numpy.asarray(y2, dtype=float), y.astype(float), equal_nan=True)
             else:
                 same = len(y2) == len(y) and all(a == b for a, b in zip(y2.tolist(), y.tolist()))
             ctx.check(same, "C13/perm/label-roundtrip", "inverse permutation does not restore the labels",
@@ -170,7 +173,7 @@ def run_perm(case, ctx):
             ctx.check(vals == list(range(kk)) and len(t.permutation_) == kk, "C13/perm/not-a-permutation",
                       "permutation_ values are %r" % (vals,), cfg=cfg)
             ident = all(t.permutation_[l] == i for i, l in enumerate(dict.fromkeys(y[~numpy.isnan(y)].tolist()
-                                                                                  if lname == "float-nan"
+                                                                                  if lname.endswith("-nan")
                                                                                   else y.tolist())))
             if not ident and k >= 3:
                 ctx.nontriv("perm", cfg)
@@ -365,6 +368,34 @@ def run_reg(case, ctx):
             ctx.check(numpy.array_equal(y, yk) and numpy.array_equal(X, Xk), "C13/regressor/input-modified",
                       "X or y written to", cfg=cfg)
             ctx.nontriv("reg", cfg)
+    # history on one estimator: fit, predict, change the transformer, fit, predict - the reciprocal applied by the
+    # second predict is the one of the second transformer
+    names = list(F)
+    other = names[(names.index(name) + 1 + case["sub"] % (len(names) - 1)) % len(names)]
+    f2, finv2, kind2 = F[other]
+    y2 = numpy.abs(y) + 0.5 if kind2 != "real" else numpy.clip(y, -3, 3)
+    y1 = numpy.abs(y) + 0.5 if kind != "real" else numpy.clip(y, -3, 3)
+    cfg = {"name": name, "then": other, "history": "fit,predict,set_params(transformer),fit,predict",
+           "sub": case["sub"]}
+    try:
+        tt = TransformedTargetRegressor2(regressor=Rec(tag=7), transformer=name)
+        tt.fit(X, y1)
+        tt.predict(X)
+        tt.set_params(transformer=other if case["sub"] % 2 else FunctionReciprocalTransformer(other))
+        tt.fit(X, y2)
+        pred = tt.predict(X)
+        ctx.hit("regressor.history")
+        with numpy.errstate(all="ignore"):
+            exp = finv2(tt.regressor_.predict(X))
+        if not numpy.allclose(pred, exp, rtol=1e-9, atol=1e-12, equal_nan=True):
+            ctx.violation("C13/regressor/predict-not-inverse/after-transformer-change",
+                          "after changing the transformer from %r to %r and refitting, predict does not apply the "
+                          "reciprocal of %r" % (name, other, other), cfg=cfg, got=pred[:3], expected=exp[:3])
+        if not numpy.allclose(tt.regressor_.seen_y_, f2(y2), rtol=1e-9, atol=1e-12):
+            ctx.violation("C13/regressor/not-trained-on-transformed-target/after-transformer-change",
+                          "the refitted regressor was not trained on the new transformation of the target", cfg=cfg)
+    except Exception as e:
+        ctx.violation("C13/regressor/raised/%s/history" % type(e).__name__, str(e)[:150], cfg=cfg)
     ctx.cls("reg=" + name)
 
 
